@@ -5,6 +5,7 @@ package main
 
 import (
 	"fmt"
+	"go/constant"
 	"go/token"
 	"go/types"
 	"os"
@@ -68,6 +69,7 @@ type frame struct {
 	panic     interface{}
 	pos       token.Pos
 	depth     int
+	skipPhis  bool
 }
 
 // fnInfo caches a dense numbering of a function's SSA values.
@@ -338,7 +340,11 @@ func (e *Exec) runFrame(fr *frame) {
 		}
 	}()
 	for {
-		e.executePhis(fr)
+		if fr.skipPhis {
+			fr.skipPhis = false
+		} else {
+			e.executePhis(fr)
+		}
 		for _, instr := range fr.block.Instrs {
 			if _, ok := instr.(*ssa.Phi); ok {
 				continue
@@ -486,6 +492,9 @@ func (e *Exec) visitInstr(fr *frame, instr ssa.Instruction) continuation {
 		e.store(fr.get(instr.Addr).(Ptr), fr.get(instr.Val))
 	case *ssa.If:
 		c := fr.get(instr.Cond).(*Term)
+		if !c.IsConst() && e.tryMergeIf(fr, instr, c) {
+			return kJump
+		}
 		succ := 1
 		if e.branch(c) {
 			succ = 0
@@ -689,4 +698,175 @@ func (e *Exec) typeAssert(instr *ssa.TypeAssert, itf Iface) Value {
 		return Tuple{v, e.tt.Bool(ok)}
 	}
 	return v
+}
+
+// specAbort: speculative execution of a branch arm must be abandoned.
+type specAbort struct{}
+
+func speculable(in ssa.Instruction) bool {
+	switch in := in.(type) {
+	case *ssa.BinOp:
+		if in.Op == token.QUO || in.Op == token.REM {
+			// division is speculable only by a non-zero constant
+			c, ok := in.Y.(*ssa.Const)
+			if !ok || c.Value == nil {
+				return false
+			}
+			if v, isInt := constant.Int64Val(constant.ToInt(c.Value)); !isInt || v == 0 {
+				return false
+			}
+		}
+		return true
+	case *ssa.UnOp:
+		return in.Op != token.ARROW
+	case *ssa.Convert, *ssa.ChangeType, *ssa.Extract, *ssa.Field, *ssa.FieldAddr, *ssa.IndexAddr, *ssa.Index,
+		*ssa.Slice, *ssa.MakeInterface, *ssa.ChangeInterface, *ssa.DebugRef, *ssa.Phi:
+		return true
+	}
+	return false
+}
+
+// armBlock reports whether b is a speculable arm: single predecessor, only pure instructions, ends in a Jump.
+func armBlock(b *ssa.BasicBlock) (join *ssa.BasicBlock, ok bool) {
+	if len(b.Preds) != 1 || len(b.Instrs) == 0 || len(b.Instrs) > 24 {
+		return nil, false
+	}
+	last := b.Instrs[len(b.Instrs)-1]
+	if _, isJump := last.(*ssa.Jump); !isJump {
+		return nil, false
+	}
+	for _, in := range b.Instrs[:len(b.Instrs)-1] {
+		if !speculable(in) {
+			return nil, false
+		}
+	}
+	return b.Succs[0], true
+}
+
+// tryMergeIf turns a triangle/diamond of pure code guarded by a symbolic condition into ite terms
+// instead of forking the path (state merging at the smallest scale).
+func (e *Exec) tryMergeIf(fr *frame, instr *ssa.If, c *Term) bool {
+	if e.cfg != nil && e.cfg.NoMerge {
+		return false
+	}
+	cur := fr.block
+	T, F := cur.Succs[0], cur.Succs[1]
+	var join *ssa.BasicBlock
+	var armT, armF *ssa.BasicBlock
+	jt, okT := armBlock(T)
+	jf, okF := armBlock(F)
+	switch {
+	case okT && okF && jt == jf && jt != T && jt != F:
+		join, armT, armF = jt, T, F
+	case okT && jt == F:
+		join, armT = F, T
+	case okF && jf == T:
+		join, armF = T, F
+	default:
+		return false
+	}
+	// the join block must be entered only through its phis (values of arms are not visible otherwise)
+	predT, predF := cur, cur
+	if armT != nil {
+		predT = armT
+	}
+	if armF != nil {
+		predF = armF
+	}
+	idxT, idxF := -1, -1
+	for i, p := range join.Preds {
+		if p == predT && idxT < 0 {
+			idxT = i
+		} else if p == predF {
+			idxF = i
+		}
+	}
+	if predT == predF {
+		return false
+	}
+	if idxT < 0 || idxF < 0 {
+		return false
+	}
+	ok := true
+	runArm := func(b *ssa.BasicBlock) {
+		if b == nil {
+			return
+		}
+		savedSpec := e.speculating
+		e.speculating = true
+		defer func() {
+			e.speculating = savedSpec
+			if r := recover(); r != nil {
+				switch r.(type) {
+				case specAbort, goPanic:
+					ok = false
+				default:
+					panic(r)
+				}
+			}
+		}()
+		for _, in := range b.Instrs[:len(b.Instrs)-1] {
+			if _, isPhi := in.(*ssa.Phi); isPhi {
+				// single-predecessor block: phi has one edge
+				fr.set(in.(*ssa.Phi), fr.get(in.(*ssa.Phi).Edges[0]))
+				continue
+			}
+			e.steps++
+			e.visitInstr(fr, in)
+		}
+	}
+	savedPos := fr.pos
+	runArm(armT)
+	if ok {
+		runArm(armF)
+	}
+	fr.pos = savedPos
+	if !ok {
+		return false
+	}
+	// merge the phis of the join block
+	var phis []*ssa.Phi
+	for _, in := range join.Instrs {
+		if phi, isPhi := in.(*ssa.Phi); isPhi {
+			phis = append(phis, phi)
+		} else {
+			break
+		}
+	}
+	vals := make([]Value, len(phis))
+	for i, phi := range phis {
+		vt := fr.get(phi.Edges[idxT])
+		vf := fr.get(phi.Edges[idxF])
+		m, mok := e.mergeValsSpec(c, vt, vf)
+		if !mok {
+			return false
+		}
+		vals[i] = m
+	}
+	for i, phi := range phis {
+		fr.set(phi, vals[i])
+	}
+	e.merges++
+	fr.prevBlock = predT
+	fr.block = join
+	fr.skipPhis = true
+	return true
+}
+
+// mergeValsSpec is mergeVals restricted to values that need no fresh objects.
+func (e *Exec) mergeValsSpec(c *Term, a, b Value) (Value, bool) {
+	switch a.(type) {
+	case *Term, Float, Str, *Agg, Tuple, nil, Ptr, Iface, *Map, *ssa.Function:
+		return e.mergeVals(c, a, b)
+	case Slice:
+		as, bs := a.(Slice), b.(Slice)
+		if as.IsNil() && bs.IsNil() {
+			return as, true
+		}
+		if as.obj == bs.obj && as.off == bs.off && as.len == bs.len && as.cap == bs.cap && ptrEq(Ptr{as.obj, as.path}, Ptr{bs.obj, bs.path}) {
+			return as, true
+		}
+		return nil, false
+	}
+	return nil, false
 }
